@@ -17,11 +17,16 @@ Open Scope Z_scope.
 (* Main theorem.  For EVERY skeleton b (any nesting, any placement of break / continue / return; even
    ill-formed ones), EVERY oracle, every history tr0 and every content of the local slots: if Go's
    semantics finishes the function body normally with trace tr', the machine running compile_ctl b from
-   pc 0 runs off the end of the code with trace tr' and an empty operand stack; if Go's semantics executes
+   pc 0 runs off the end of the code (Finished: the pc reached len code or beyond -- `len C <= pc`, not
+   necessarily pc = len C) with trace tr' and an empty operand stack; if Go's semantics executes
    a return with trace tr', the machine executes a RETURN instruction with trace tr'.  The trace lists
    every emit, every condition evaluated, every range expression and every switch tag in order, so equal
    traces mean: every case, else branch and loop body ran exactly when Go runs it, and the oracle was
-   consulted at the same points with the same history. *)
+   consulted at the same points with the same history.
+   The premise is that Go's evaluator TERMINATES within some fuel: when it diverges (exec_block = None for
+   every fuel, e.g. `for {}`) the theorem says nothing about the machine (in particular not that it diverges
+   too, nor that its trace prefixes agree).  A body that ends in Brk / Cont (not a valid Go function body)
+   gets the conclusion True. *)
 Theorem c06_skeleton : forall (orc : oracle) (b : block) (fuel : nat) (tr0 : trace) (s0 : nat -> sval)
                               (out : outcome) (tr' : trace),
   exec_block orc fuel b tr0 = Some (out, tr') ->
@@ -63,8 +68,10 @@ Theorem c06_wf_no_placeholder : forall (b : block), wf_block false false b = tru
 Proof. exact wf_no_placeholder. Qed.
 Print Assumptions c06_wf_no_placeholder.
 
-(* switch cases never fall through: if the first guard of a case holds (tagless) / equals the tag (tagged),
-   only that case's block runs, whatever follows *)
+(* switch cases never fall through -- COROLLARIES of c06_skeleton for the FIRST guard of the FIRST case only:
+   if that guard holds (tagless) / equals the tag (tagged) and Go runs that case's block to a normal end, the
+   machine finishes with the same trace -- so no later guard, no other case and not the default contributed an
+   event.  Any other case / guard is covered by c06_skeleton itself (equal traces), not by these two. *)
 Theorem c06_no_fallthrough : forall (orc : oracle) g gs body cs dpos dflt fuel tr0 s0 tr',
   o_cond orc tr0 g = true ->
   exec_block orc fuel body (EvCond g :: tr0) = Some (Normal, tr') ->
@@ -81,12 +88,22 @@ Theorem c06_no_fallthrough_tagged : forall (orc : oracle) k g gs body cs dpos df
 Proof. exact no_fallthrough_tagged. Qed.
 Print Assumptions c06_no_fallthrough_tagged.
 
-(* the position of the default clause changes neither Go's meaning nor the compiled code *)
-Theorem c06_default_position : forall (orc : oracle) tag cs d1 d2 dflt,
-  (forall L, compile L (Switch tag cs d1 dflt) = compile L (Switch tag cs d2 dflt)) /\
-  (forall f tr, exec orc f (Switch tag cs d1 dflt) tr = exec orc f (Switch tag cs d2 dflt) tr).
-Proof. exact default_position. Qed.
-Print Assumptions c06_default_position.
+(* The default clause.  The position of the default clause does not influence the generated code: MODELLING
+   ASSUMPTION, tied only by the instruction-for-instruction correspondence (Model/CorrC06.v).  The field dpos
+   of Switch is read neither by GoSpec/GoCtl.v (exec) nor by Model/Ctl.v (compile), so an equation "the same
+   for every dpos" holds by reflexivity and is NOT stated as a theorem (it was, as c06_default_position, until
+   the audit).  What is proved about the default: compile places its block after the code of all cases
+   (definition of compile, Model/Ctl.v) and the machine enters it when no guard of any case holds, wherever
+   it is written -- another corollary of c06_skeleton: no_match evaluates all guards of all cases top to
+   bottom (Proofs/C06_main.v; None as soon as one holds) and gives the trace at which Go starts the default.
+   That the default is NOT entered when some guard holds is again c06_skeleton (equal traces), and
+   c06_no_fallthrough for the first guard. *)
+Theorem c06_default_entered : forall (orc : oracle) tag cs dpos dflt fuel tr0 s0 tr2 tr',
+  no_match orc (option_map (o_tag orc tr0) tag) cs (match tag with Some k => EvTag k :: tr0 | None => tr0 end) = Some tr2 ->
+  exec_block orc fuel dflt tr2 = Some (Normal, tr') ->
+  exists mf, run orc mf (compile_ctl (BCons (Switch tag cs dpos dflt) BNil)) (mkCfg 0 tr0 [] s0) = Finished tr' [].
+Proof. exact default_entered. Qed.
+Print Assumptions c06_default_entered.
 
 (* non-vacuity: `for { switch { default: break }; emit(1); break }` emits 1 and ends (the break in the
    default leaves the switch only); with return instead of the last break the function returns *)
